@@ -430,7 +430,7 @@ pub fn corrupt(rng: &mut Rng, r: &mut GenReq, which: usize) {
         }
         15 => {
             // Content-Length edge values; appended last so that it is the effective one
-            let v = *rng.pick(&["0", "007", "4294967295", "4294967296", "-1", "", " ", "1e3", "0x10", "99999999999999999999", "00000000000", "000000000000000000007", "0000000004294967295", "0000000004294967296", "-0", "-00", "+0", "0.0", "1 0", "0,0"]);
+            let v = *rng.pick(&["0", "007", "4294967295", "4294967296", "-1", "", " ", "1e3", "0x10", "99999999999999999999", "00000000000", "000000000000000000007", "0000000004294967295", "0000000004294967296", "-0", "-00", "0.0", "1 0", "0,0"]);
             r.headers.push((format!("Content-Length: {}", v).into_bytes(), b"\r\n".to_vec()));
         }
         16 => {
